@@ -1,7 +1,7 @@
 (* C08 -- Redefine yields a callable function over exactly the missing, permitted inputs. *)
 From ArgMapper Require Import Base Graph GraphAlg Types Args Resolver ResolverSpec Monitors Monitors2 ResolverStatements ResolverStatements2.
-From ArgMapper Require Import ResolverStatements4.
-From ArgMapper.proofs Require Import C08Redefine C08Succeeds.
+From ArgMapper Require Import ResolverStatements3 ResolverStatements4.
+From ArgMapper.proofs Require Import C08Redefine C08Succeeds C08Callable C08NonVacuous.
 
 (* On the domain of the property (no subtypes; the proofs do not even need
    the single-input and one-type-per-name restrictions) and for every tape:
@@ -29,10 +29,27 @@ Theorem C08_succeeds : C08_succeeds_statement.
 Proof. exact C08_succeeds_proof. Qed.
 Print Assumptions C08_succeeds.
 
-(* The remaining clause of the property -- calling the redefined function
-   with a value for each declared input never fails for lack of an argument
-   and yields the original function's results -- is decided by the
-   correspondence check (stream redefstrict: the model of the redefined
-   function's call is compared with the implementation) and by the monitor
-   c08_monitor on the implementation's observations; statement
-   C08_callable_statement in ResolverStatements3.v. *)
+(* "Calling the returned function with a value for each declared input never
+   fails for lack of an argument and yields the original function's own
+   results": on the property's domain, from a fresh world, when Redefine
+   succeeds with inputs `ins`, the original Call with the Redefine options
+   plus one value of the declared type per declared input -- what the body of
+   the redefined function does -- returns, for EVERY order tape, every
+   behaviour of the user functions and every choice of values, the target's
+   own result or the error of a failing converter: never the
+   unsatisfied-argument error, the internal missing-argument error or a build
+   error.  Side conditions as in C05: transitive implements relation, fewer
+   than (2^63-1)/20 vertices.  (That the outer, synthesised struct function
+   hands its fields to this call unchanged is checked by the correspondence
+   on the callredef operations, D20.) *)
+Theorem C08_callable : C08_callable_statement.
+Proof. exact C08_callable_proof. Qed.
+Print Assumptions C08_callable.
+
+(* the premises are satisfiable: a scenario recorded from the Go library *)
+Theorem C08_nonvacuous :
+  (exists b, build_args [] nv_opts = Some b /\ wf_call nv_u nv_f b = true /\ c08_domain nv_u nv_f b = true /\
+             outputs_permitted nv_u nv_f b = true) /\
+  nv_redefine_ok = true /\ nv_call_ok = true.
+Proof. exact C08_premises_satisfiable. Qed.
+Print Assumptions C08_nonvacuous.
